@@ -1,4 +1,5 @@
 import RsslVerif.Lemmas.FixpointArith
+import RsslVerif.Lemmas.FixpointPlace
 set_option linter.unusedSimpArgs false
 /-!
 Lemmas for C04 `reelab_no_new_casts`, part 3: the conditional operator, the assignment family and the unary
@@ -8,7 +9,8 @@ namespace RsslVerif.Lemmas.FixpointForms
 open RsslVerif.Gen.RankTable RsslVerif.Gen.TypingTables
 open RsslVerif.Model.Conv RsslVerif.Model.Overload RsslVerif.Model.IrTyping RsslVerif.Model.Elab
 open RsslVerif.Model.Fixpoint RsslVerif.Lemmas.ElabConv RsslVerif.Lemmas.Elab RsslVerif.Lemmas.ElabExact
-open RsslVerif.Lemmas.ElabRelease RsslVerif.Lemmas.FixpointElab RsslVerif.Lemmas.FixpointArith
+open RsslVerif.Lemmas.ElabRelease RsslVerif.Lemmas.FixpointElab RsslVerif.Lemmas.FixpointArith RsslVerif.Lemmas.FixpointArithDim
+open RsslVerif.Lemmas.FixpointPlace
 
 /-! ## `?:` — the common type of the arms is stable -/
 
@@ -17,6 +19,17 @@ open RsslVerif.Lemmas.ElabRelease RsslVerif.Lemmas.FixpointElab RsslVerif.Lemmas
 @[simp] theorem mostSig_idem2 (l r : Scalar) : mostSigScalar l (mostSigScalar l r) = mostSigScalar l r := by
   cases l <;> cases r <;> decide
 @[simp] theorem mostSig_idem3 (l : Scalar) : mostSigScalar l l = l := by
+  cases l <;> decide
+
+/-! since fix c05bffa the element kind of `?:` is remapped (`IntLiteral` → `int`, `FloatLiteral` → `float`) unless both
+    arms are scalars; the remapped kind is again stable when an arm is replaced by the common type -/
+@[simp] theorem ternRemap_idem1 (l r : Scalar) :
+    litTernRemap (mostSigScalar (litTernRemap (mostSigScalar l r)) r) = litTernRemap (mostSigScalar l r) := by
+  cases l <;> cases r <;> decide
+@[simp] theorem ternRemap_idem2 (l r : Scalar) :
+    litTernRemap (mostSigScalar l (litTernRemap (mostSigScalar l r))) = litTernRemap (mostSigScalar l r) := by
+  cases l <;> cases r <;> decide
+@[simp] theorem ternRemap_idem3 (l : Scalar) : litTernRemap (litTernRemap l) = litTernRemap l := by
   cases l <;> decide
 
 def vdim (n1 n2 : Nat) : Nat := if n1 = 1 ∨ n2 = 1 then max n1 n2 else min n1 n2
@@ -28,10 +41,11 @@ theorem vdim_idem (n1 n2 : Nat) :
 
 theorem ternTargets_vv (s1 s2 : Scalar) (n1 n2 : Nat) :
     ternTargets (.vector s1 n1) (.vector s2 n2) =
-      .ok (.vector (mostSigScalar s1 s2) (vdim n1 n2), .vector (mostSigScalar s1 s2) (vdim n1 n2)) := by
+      .ok (.vector (litTernRemap (mostSigScalar s1 s2)) (vdim n1 n2),
+           .vector (litTernRemap (mostSigScalar s1 s2)) (vdim n1 n2)) := by
   unfold vdim
   by_cases hc : n1 = 1 ∨ n2 = 1 <;>
-    simp [ternTargets, Layer.extractScalar, mostSignificantDimension, Layer.ofDim, hc]
+    simp [ternTargets, ternScalar, Layer.extractScalar, mostSignificantDimension, Layer.ofDim, hc]
 
 theorem ternTargets_stable {la lb lt la0 lb0 : Layer} (h : ternTargets la lb = .ok (lt, lt))
     (ha : la0 = la ∨ la0 = lt) (hb : lb0 = lb ∨ lb0 = lt) : ternTargets la0 lb0 = .ok (lt, lt) := by
@@ -43,33 +57,33 @@ theorem ternTargets_stable {la lb lt la0 lb0 : Layer} (h : ternTargets la lb = .
     obtain ⟨d1, d2, d3⟩ := vdim_idem n1 n2
     rcases ha with rfl | rfl <;> rcases hb with rfl | rfl <;> rw [ternTargets_vv] <;> simp [*]
   all_goals
-    simp [ternTargets, Layer.extractScalar, mostSignificantDimension, Layer.transformScalar, Layer.ofDim] at h
+    simp [ternTargets, ternScalar, Layer.extractScalar, mostSignificantDimension, Layer.transformScalar, Layer.ofDim] at h
   all_goals (try (obtain ⟨h1, h2⟩ := h; subst h1; first | (cases h2; done) | skip))
   all_goals (try subst h)
   all_goals (try (rcases ha with rfl | rfl <;> rcases hb with rfl | rfl <;>
-    simp [ternTargets, Layer.extractScalar, mostSignificantDimension, Layer.transformScalar, Layer.ofDim] <;> done))
+    simp [ternTargets, ternScalar, Layer.extractScalar, mostSignificantDimension, Layer.transformScalar, Layer.ofDim] <;> done))
   · injection h2 with h2; subst h2
     rcases ha with rfl | rfl <;> rcases hb with rfl | rfl <;>
-      simp [ternTargets, Layer.extractScalar, mostSignificantDimension]
+      simp [ternTargets, ternScalar, Layer.extractScalar, mostSignificantDimension]
   · injection h2 with h2; subst h2
     rcases ha with rfl | rfl <;> rcases hb with rfl | rfl <;>
-      simp [ternTargets, Layer.extractScalar, mostSignificantDimension]
+      simp [ternTargets, ternScalar, Layer.extractScalar, mostSignificantDimension]
 
 theorem ternTargets_floatLit_left (lb x : Layer) :
     ternTargets (.scalar .floatLiteral) lb ≠ .ok (.scalar .int32, x) := by
   cases lb with
-  | scalar s => cases s <;> simp +decide [ternTargets, Layer.extractScalar, mostSignificantDimension, Layer.ofDim, mostSigScalar]
-  | vector s n => cases s <;> simp +decide [ternTargets, Layer.extractScalar, mostSignificantDimension, Layer.ofDim, mostSigScalar]
-  | matrix s p q => cases s <;> simp +decide [ternTargets, Layer.extractScalar, mostSignificantDimension, Layer.transformScalar, mostSigScalar]
+  | scalar s => cases s <;> simp +decide [ternTargets, ternScalar, litTernRemap, Layer.extractScalar, mostSignificantDimension, Layer.ofDim, mostSigScalar]
+  | vector s n => cases s <;> simp +decide [ternTargets, ternScalar, litTernRemap, Layer.extractScalar, mostSignificantDimension, Layer.ofDim, mostSigScalar]
+  | matrix s p q => cases s <;> simp +decide [ternTargets, ternScalar, litTernRemap, Layer.extractScalar, mostSignificantDimension, Layer.transformScalar, mostSigScalar]
   | enum i => simp [ternTargets, Layer.extractScalar, mostSignificantDimension]
   | other i => simp [ternTargets, Layer.extractScalar, mostSignificantDimension]
 
 theorem ternTargets_floatLit_right (la x : Layer) :
     ternTargets la (.scalar .floatLiteral) ≠ .ok (x, .scalar .int32) := by
   cases la with
-  | scalar s => cases s <;> simp +decide [ternTargets, Layer.extractScalar, mostSignificantDimension, Layer.ofDim, mostSigScalar]
-  | vector s n => cases s <;> simp +decide [ternTargets, Layer.extractScalar, mostSignificantDimension, Layer.ofDim, mostSigScalar]
-  | matrix s p q => cases s <;> simp +decide [ternTargets, Layer.extractScalar, mostSignificantDimension, Layer.transformScalar, mostSigScalar]
+  | scalar s => cases s <;> simp +decide [ternTargets, ternScalar, litTernRemap, Layer.extractScalar, mostSignificantDimension, Layer.ofDim, mostSigScalar]
+  | vector s n => cases s <;> simp +decide [ternTargets, ternScalar, litTernRemap, Layer.extractScalar, mostSignificantDimension, Layer.ofDim, mostSigScalar]
+  | matrix s p q => cases s <;> simp +decide [ternTargets, ternScalar, litTernRemap, Layer.extractScalar, mostSignificantDimension, Layer.transformScalar, mostSigScalar]
   | enum i => simp [ternTargets, Layer.extractScalar, mostSignificantDimension]
   | other i => simp [ternTargets, Layer.extractScalar, mostSignificantDimension]
 
@@ -198,12 +212,13 @@ theorem elabTern_stable {c' a' b' n : IExpr} {τc τa τb τ : ETy}
 
 /-! ## the assignment family -/
 
-/-- **Assignments are stable under re-elaboration** (the left operand is never converted). -/
-theorem elabAssign_stable {o : BinOp} {a b' n : IExpr} {τa τb τ : ETy}
-    (h : elabAssign o a τa b' τb = .ok (n, τ)) :
+/-- **Assignments are stable under re-elaboration** (the left operand is never converted; since fix 4575004 the written
+    operand is asked for its IR type again — `check_mutable_place` — in the exported environment: same answer). -/
+theorem elabAssign_stable {Γ Γ' : Env} (hR : Renamed Γ Γ') {o : BinOp} {a b' n : IExpr} {τa τb τ : ETy}
+    (h : elabAssign Γ o a τa b' τb = .ok (n, τ)) :
     ∃ c b2 i, find τb τa.ty.r = .ok (some c) ∧ applyConv c b' = .ok b2 ∧ o.toIOp = some i ∧
       n = .op i (.cons a (.cons b2 .nil)) ∧
-      (∀ b0 τb0, Back τb τa.ty.r b' b2 b0 τb0 → elabAssign o a τa b0 τb0 = .ok (n, τ)) := by
+      (∀ b0 τb0, Back τb τa.ty.r b' b2 b0 τb0 → elabAssign Γ' o a τa b0 τb0 = .ok (n, τ)) := by
   unfold elabAssign at h
   split at h
   · simp at h
@@ -213,23 +228,51 @@ theorem elabAssign_stable {o : BinOp} {a b' n : IExpr} {τa τb τ : ETy}
     · rename_i hlv
       split at h
       · simp at h
-      · simp at h
-      · rename_i b2 tb hc
-        obtain ⟨c, hf, ha, htb⟩ := convert_inv hc
-        subst htb
+      · rename_i hplace
+        have hplace' : checkMutablePlace Γ' a = .ok () := checkMutablePlace_renamed hR hplace
         split at h
         · simp at h
-        · rename_i i hi
+        · simp at h
+        · rename_i b2 tb hc
+          obtain ⟨c, hf, ha, htb⟩ := convert_inv hc
+          subst htb
           split at h
           · simp at h
-          · rename_i out hout
-            simp at h
-            refine ⟨c, b2, i, hf, ha, hi, h.1.symm, ?_⟩
-            intro b0 τb0 hb
-            have hc0 := back_convert hf ha hb
-            unfold elabAssign
-            simp only [hconst, hlv, if_false, hc0, hi, hout]
-            simp [h.1, h.2]
+          · rename_i i hi
+            split at h
+            · simp at h
+            · rename_i out hout
+              simp at h
+              refine ⟨c, b2, i, hf, ha, hi, h.1.symm, ?_⟩
+              intro b0 τb0 hb
+              have hc0 := back_convert hf ha hb
+              unfold elabAssign
+              simp only [hconst, hlv, if_false, hplace', hc0, hi, hout]
+              simp [h.1, h.2]
+
+/-- an accepted assignment is an operator node over the unconverted left operand -/
+theorem elabAssign_node {Γ : Env} {o : BinOp} {a b' n : IExpr} {τa τb τ : ETy}
+    (h : elabAssign Γ o a τa b' τb = .ok (n, τ)) :
+    ∃ c b2 i, applyConv c b' = .ok b2 ∧ n = .op i (.cons a (.cons b2 .nil)) := by
+  unfold elabAssign at h
+  split at h
+  · simp at h
+  · split at h
+    · simp at h
+    · split at h
+      · simp at h
+      · split at h
+        · simp at h
+        · simp at h
+        · rename_i b2 tb hc
+          obtain ⟨c, _, ha, _⟩ := convert_inv hc
+          split at h
+          · simp at h
+          · rename_i i _
+            split at h
+            · simp at h
+            · simp at h
+              exact ⟨c, b2, i, ha, h.1.symm⟩
 
 /-! ## unary operators -/
 
@@ -255,7 +298,7 @@ theorem unelab_op2 {o : IOp} {b : BinOp} {x y : IExpr} {s' : SExpr} (ho : opSyn 
     exact ⟨_, _, rfl, hx, hy⟩
 
 theorem elabE_un {o : UnOp} {x' : SExpr} {e n : IExpr} {τ τ' : ETy}
-    (h1 : elabE false Γ' x' = .ok (e, τ)) (h2 : elabUn o e τ = .ok (n, τ')) :
+    (h1 : elabE false Γ' x' = .ok (e, τ)) (h2 : elabUn Γ' o e τ = .ok (n, τ')) :
     elabE false Γ' (.un o x') = .ok (n, τ') := by
   simp [elabE, h1, h2, selfCheck]
 
@@ -289,18 +332,34 @@ theorem castOperand_of_back {f : Err} {e e2 e0 : IExpr} {τ inp τ0 : ETy} {c : 
 
 theorem unmod_scalarTy (k : Scalar) : (scalarTy k).r.ty.unmod.r = (scalarTy k).r := rfl
 
+/-- `parse_expr_unaryop` on the same operand in the exported environment: only the `++` / `--` arms read the
+    environment (`check_mutable_place`, since fix 4575004), and they get the same answer -/
+theorem elabUn_renamed (hR : Renamed Γ Γ') {o : UnOp} {e : IExpr} {τ : ETy} {r : IExpr × ETy}
+    (h : elabUn Γ o e τ = .ok r) : elabUn Γ' o e τ = .ok r := by
+  cases o
+  case prefixIncrement | prefixDecrement | postfixIncrement | postfixDecrement =>
+    simp only [elabUn] at h ⊢
+    split at h
+    · simp at h
+    · split at h
+      · simp at h
+      · rename_i hplace
+        rw [checkMutablePlace_renamed hR hplace]
+        exact h
+  all_goals exact h
+
 /-- **Unary operators are stable under re-elaboration.**  `ih`: the operand re-elaborates to itself; `hlit`: a literal
     operand has a kind with a spelling (it was not re-tagged: operands of unary operators are elaborated without a
     requested type). -/
-theorem elabUn_stable {o : UnOp} {e' n : IExpr} {τ τ' : ETy} (hty : HasType Γ e' τ)
-    (h : elabUn o e' τ = .ok (n, τ'))
+theorem elabUn_stable (hR : Renamed Γ Γ') {o : UnOp} {e' n : IExpr} {τ τ' : ETy} (hty : HasType Γ e' τ)
+    (h : elabUn Γ o e' τ = .ok (n, τ'))
     (ih : ∀ s', Unelab Γ' e' s' → elabE false Γ' s' = .ok (e', τ))
     (hlit : ∀ k, e' = .lit k → rereadKind k = k) :
     ∀ s', Unelab Γ' n s' → elabE false Γ' s' = .ok (n, τ') := by
   intro s' hu
   -- an operator node over the unconverted operand
   have plain : ∀ (i : IOp) (u : UnOp), opSyn i = some (.un u) → n = .op i (.cons e' .nil) →
-      elabUn u e' τ = .ok (n, τ') → elabE false Γ' s' = .ok (n, τ') := by
+      elabUn Γ' u e' τ = .ok (n, τ') → elabE false Γ' s' = .ok (n, τ') := by
     intro i u hi hn hel
     subst hn
     obtain ⟨x', rfl, hx⟩ := unelab_op1 hi hu
@@ -308,7 +367,7 @@ theorem elabUn_stable {o : UnOp} {e' n : IExpr} {τ τ' : ETy} (hty : HasType Γ
   -- an operator node over a converted operand
   have conv : ∀ (i : IOp) (u : UnOp) (e2 : IExpr) (inp : ETy) (c : Conversion), opSyn i = some (.un u) →
       n = .op i (.cons e2 .nil) → inp.vt = .rvalue → find τ inp = .ok (some c) → applyConv c e' = .ok e2 →
-      (∀ e0 τ0, Back τ inp e' e2 e0 τ0 → elabUn u e0 τ0 = .ok (n, τ')) → elabE false Γ' s' = .ok (n, τ') := by
+      (∀ e0 τ0, Back τ inp e' e2 e0 τ0 → elabUn Γ' u e0 τ0 = .ok (n, τ')) → elabE false Γ' s' = .ok (n, τ') := by
     intro i u e2 inp c hi hn hr hf ha hk
     subst hn
     obtain ⟨x', rfl, hx⟩ := unelab_op1 hi hu
@@ -316,38 +375,46 @@ theorem elabUn_stable {o : UnOp} {e' n : IExpr} {τ τ' : ETy} (hty : HasType Γ
     exact elabE_un hel (hk e0 τ0 hb)
   cases o with
   | prefixIncrement =>
-    have h' := h
+    have h' := elabUn_renamed hR h
     simp only [elabUn] at h
     split at h
     · simp at h
-    · simp at h; exact plain _ _ opSyn_prefixIncrement h.1.symm h'
+    · split at h
+      · simp at h
+      · simp at h; exact plain _ _ opSyn_prefixIncrement h.1.symm h'
   | prefixDecrement =>
-    have h' := h
+    have h' := elabUn_renamed hR h
     simp only [elabUn] at h
     split at h
     · simp at h
-    · simp at h; exact plain _ _ opSyn_prefixDecrement h.1.symm h'
+    · split at h
+      · simp at h
+      · simp at h; exact plain _ _ opSyn_prefixDecrement h.1.symm h'
   | postfixIncrement =>
-    have h' := h
+    have h' := elabUn_renamed hR h
     simp only [elabUn] at h
     split at h
     · simp at h
-    · simp at h; exact plain _ _ opSyn_postfixIncrement h.1.symm h'
+    · split at h
+      · simp at h
+      · simp at h; exact plain _ _ opSyn_postfixIncrement h.1.symm h'
   | postfixDecrement =>
-    have h' := h
+    have h' := elabUn_renamed hR h
     simp only [elabUn] at h
     split at h
     · simp at h
-    · simp at h; exact plain _ _ opSyn_postfixDecrement h.1.symm h'
+    · split at h
+      · simp at h
+      · simp at h; exact plain _ _ opSyn_postfixDecrement h.1.symm h'
   | plus =>
-    have h' := h
+    have h' := elabUn_renamed hR h
     simp only [elabUn] at h
     split at h
     · simp at h
     · simp at h
     · simp at h; exact plain _ _ opSyn_plus h.1.symm h'
   | minus =>
-    have h' := h
+    have h' := elabUn_renamed hR h
     simp only [elabUn] at h
     split at h
     · simp at h
@@ -401,7 +468,7 @@ theorem elabUn_stable {o : UnOp} {e' n : IExpr} {τ τ' : ETy} (hty : HasType Γ
               simp [elabUn, boolR, scalarTy, Ty.r, Layer.extractScalar, castOperand, Ty.unmod]
             | relit _ hD _ => exact absurd hD boolR_ne_int32
   | bitwiseNot =>
-    have h' := h
+    have h' := elabUn_renamed hR h
     simp only [elabUn] at h
     split at h
     · simp at h
